@@ -36,7 +36,8 @@ out.append('Each change below was written by a fresh sub-agent that was given on
            'pass, with a demonstration. A change is kept (`seeded/<id>/`: patch.diff, the demonstration, meta.json) only after I confirmed the\n'
            'demonstration on the modified worktree and on /repo. To test one: `git -C /repo apply seeded/<id>/patch.diff`, run the checks,\n'
            '`git -C /repo checkout -- .`. Where the checks were silent at first, the rule that was missing was added (never a rule keyed on the\n'
-           'patch text: each added rule has neutral self-test variants) and the miss is recorded here.\n')
+           'patch text: each added rule has neutral self-test variants) and the miss is recorded here. After a first round (one seed per claimed\n'
+           'property) a second round was run on some properties with fresh agents (`<id>b`): it tests the strengthened checks with another breakage.\n')
 out.append('| seed | needs, to manifest | caught by | first run |')
 out.append('|---|---|---|---|')
 sd = os.path.join(V, 'seeded')
